@@ -2,7 +2,9 @@
   1. recorded executions of the real crate are accepted (no L2 rejection, no L1 drift);
   2. the same executions with ONE observed field corrupted (an item value, a missing terminal, a duplicated terminal, a wrong
      is_subscribed answer) are rejected by TLC at that execution - by the L1 model (drift) and by the L2 monitor that owns the clause;
-  3. a concurrent trace with a duplicated terminal callback / a callback after unsubscribe returned is rejected by ConcProps."""
+  3. a concurrent trace with a duplicated terminal callback / a callback after unsubscribe returned is rejected by ConcProps;
+  4. the lock log of the real subscriber Observer / StreamController is accepted by the lock-level design model SinkConc
+     (SinkConcTrace), and rejected when one lock operation or one callback line is removed."""
 import copy
 import json
 import os
@@ -124,6 +126,24 @@ def run():
             r = sum(1 for nid in ids if v2[nid]['rej'][flag] == 'bad')
             print('selftest 3: %2d traces with an injected %s violation: %2d rejected by ConcProps' % (len(ids), flag, r))
             ok &= r == len(ids) and len(ids) > 0
+        # ---- 4. lock-level conformance: the lock log of the real Observer / StreamController is a behaviour of SinkConc;
+        #         with one lock operation removed, or a callback line removed, it is not
+        import json as _json
+        sd0 = conccheck.sink_drift(work, harness, 1, runs=20)
+        print('selftest 4: lock logs of %d cases (%d executions, %d lines) validated against SinkConc: %d cases rejected (must be 0)' % (sd0['cases'], sd0['traces'], sd0['lines'], len(sd0['drift'])))
+        ok &= sd0['cases'] >= 5 and not sd0['drift']
+
+        def dropper(ev):
+            def f(lines):
+                for i, x in enumerate(lines):
+                    if _json.loads(x)['ev'] == ev:
+                        return lines[:i] + lines[i + 1:]
+                return None
+            return f
+        for ev in ('W_E', 'cb', 'R_C'):
+            sd1 = conccheck.sink_drift(work, harness, 1, runs=20, corrupt=dropper(ev), tagp='sdc_' + ev.lower())
+            print('selftest 4: the same logs with the first %-3s line removed: %d of %d cases rejected by SinkConcTrace' % (ev, len(sd1['drift']), sd1['cases']))
+            ok &= sd1['cases'] > 0 and len(sd1['drift']) == sd1['cases']
         print('SELFTEST ' + ('ok' if ok else 'FAILED'))
         return 0 if ok else 1
     finally:
